@@ -103,7 +103,9 @@ fn cram_indented(indent: &str, from: &str) -> String {
     if from.is_empty() {
         "".into()
     } else {
-        from.trim_end()
+        // only the final newline: trailing blanks and empty lines are output
+        from.strip_suffix('\n')
+            .unwrap_or(from)
             .split('\n')
             .map(|line| format!("{}{}", indent, line))
             .collect::<Vec<_>>()
